@@ -27,6 +27,24 @@ fn viol(rec: &mut Rec, sch: &str, art: &str, what: &str, id: &str, detail: Strin
     rec.violation(&format!("C12/{}/{}/{}", sch, art, what), id, detail);
 }
 
+/// A reader over a byte string that records the offset at which every read call starts.
+pub struct RecReader<'a> {
+    pub data: &'a [u8],
+    pub pos: usize,
+    pub starts: Vec<usize>,
+}
+impl<'a> ark_serialize::Read for RecReader<'a> {
+    fn read(&mut self, buf: &mut [u8]) -> ark_std::io::Result<usize> {
+        if self.starts.last() != Some(&self.pos) {
+            self.starts.push(self.pos);
+        }
+        let k = buf.len().min(self.data.len() - self.pos);
+        buf[..k].copy_from_slice(&self.data[self.pos..self.pos + k]);
+        self.pos += k;
+        Ok(k)
+    }
+}
+
 /// Round trip, size and prefix checks of one artefact in all four modes. Returns the value
 /// deserialized in each mode (for the decision-equality part).
 pub fn roundtrip<T: CanonicalSerialize + CanonicalDeserialize>(rec: &mut Rec, sch: &str, art: &str, id: &str, x: &T, full_prefix: bool) -> Vec<Option<T>> {
@@ -81,6 +99,19 @@ pub fn roundtrip<T: CanonicalSerialize + CanonicalDeserialize>(rec: &mut Rec, sc
             let mut l: Vec<usize> = (0..n.min(16)).collect();
             l.extend((16..n).step_by(16));
             l.extend(n.saturating_sub(64)..n);
+            // plus every FIELD BOUNDARY of this encoding (and the byte before / after it): the offsets at which
+            // the deserializer itself starts a read when it is fed the complete byte string
+            let mut rr = RecReader { data: &bytes[..], pos: 0, starts: Vec::new() };
+            if T::deserialize_with_mode(&mut rr, *c, *v).is_ok() {
+                rec.class_n("field-boundaries-probed", rr.starts.len() as u64);
+                for b in rr.starts {
+                    for k in [b.saturating_sub(1), b, b + 1] {
+                        if k < n {
+                            l.push(k);
+                        }
+                    }
+                }
+            }
             l.sort();
             l.dedup();
             l
